@@ -11,6 +11,7 @@ import (
 	"crypto/elliptic"
 	"fmt"
 	"io"
+	"math/big"
 
 	"github.com/markkurossi/mpc/ot"
 	"github.com/markkurossi/mpc/sha2pc"
@@ -171,7 +172,25 @@ func (w *world) whole(t *rt.Tape, trace bool, res *core.Result) *core.Result {
 		garbleRand = func(r io.Reader) io.Reader { return &simrand.ShortReader{R: r, Block: block} }
 		res.Reach["garbler-randomness.short-reads-at-block-boundaries"]++
 	}
-	o := twopc.Run(t, twopc.Session{Circ: circ, X: in[0], Y: in[1], OT: kind, Pipe: pipe, Trace: trace && !tamper, GarbleRand: garbleRand})
+	sess := twopc.Session{Circ: circ, X: in[0], Y: in[1], OT: kind, Pipe: pipe, Trace: trace && !tamper, GarbleRand: garbleRand}
+	// One untampered case in four: the garbler process serves a second session
+	// of the same circuit afterwards (same OT object, same env.Config, other
+	// inputs). Whatever it keeps between sessions must not make the two
+	// transcripts together reveal what neither reveals alone.
+	if !tamper && !small && t.Choose(rt.SGen, 4) == 0 {
+		in2 := gen.Inputs(t, circ)
+		in2[0].Xor(in[0], new(big.Int).Sub(new(big.Int).Lsh(big.NewInt(1), uint(circ.Inputs[0].Type.Bits)), big.NewInt(1))) // every garbler input bit differs
+		sess.Next = &twopc.Session{Circ: circ, X: in2[0], Y: in2[1]}
+		sess.SameConn = t.Choose(rt.SGen, 2) == 0
+		if sess.SameConn && (kind == twopc.OTCOT || kind == twopc.OTCOTMal) {
+			sess.OT = map[int]int{twopc.OTCOT: twopc.OTCOTShared, twopc.OTCOTMal: twopc.OTCOTMalShared}[kind]
+		} else if !sess.SameConn && kind != twopc.OTCO && kind != twopc.OTRSA1024 {
+			sess.OT = twopc.OTCO
+		}
+		kind = sess.OT
+		res.Reach["whole-circuit.two-sessions"]++
+	}
+	o := twopc.Run(t, sess)
 	core.Finish(res, o.RR)
 	res.Class = "whole-circuit ot=" + twopc.OTNames[kind]
 	smp := sample{World: "whole-circuit", Case: twopc.Sample{Circuit: gen.Describe(circ), X: in[0].Text(16), Y: in[1].Text(16), OT: twopc.OTNames[kind]}, Transcript: len(o.GE)}
@@ -182,6 +201,7 @@ func (w *world) whole(t *rt.Tape, trace bool, res *core.Result) *core.Result {
 	}
 	if !o.GDone || o.GErr != nil || len(o.RR.Crashed) > 0 {
 		res.Discard = true // a broken clean session is C02's business
+		res.Reach[fmt.Sprintf("discard: whole-circuit session broken (done=%v err=%v crashed=%d next=%v)", o.GDone, o.GErr, len(o.RR.Crashed), sess.Next != nil)]++
 		return res
 	}
 	if tamper {
@@ -260,6 +280,7 @@ func (w *world) whole(t *rt.Tape, trace bool, res *core.Result) *core.Result {
 	r, ok, consistent := offsetFromWires(o.OTWires)
 	if !ok {
 		res.Discard = true
+		res.Reach["discard: whole-circuit: no wire was handed to the OT layer"]++
 		return res
 	}
 	if !consistent {
@@ -273,6 +294,29 @@ func (w *world) whole(t *rt.Tape, trace bool, res *core.Result) *core.Result {
 		return res
 	}
 	report(res, "whole-circuit session", Scan(o.GE, r, 8), o.GE)
+	if n := o.Next; n != nil && res.Fail == nil {
+		if !n.GDone || n.GErr != nil {
+			res.Reach["whole-circuit.second-session-broken(C02's business)"]++
+			return res
+		}
+		r2, ok2, cons2 := offsetFromWires(n.OTWires)
+		if !ok2 {
+			return res
+		}
+		if !cons2 {
+			res.Fail = &core.Failure{Clause: "offset-not-global", Detail: "second session: the wires handed to the OT layer do not share one offset L0 xor L1"}
+			return res
+		}
+		both := append(append([]byte(nil), o.GE...), n.GE...)
+		res.Reach["bytes-scanned"] += len(n.GE)
+		report(res, "second whole-circuit session of the same garbler process", Scan(n.GE, r2, 8), n.GE)
+		if res.Fail == nil {
+			report(res, "two sessions of one garbler process taken together (offset of the first)", Scan(both, r, 8), both)
+		}
+		if res.Fail == nil {
+			report(res, "two sessions of one garbler process taken together (offset of the second)", Scan(both, r2, 8), both)
+		}
+	}
 	return res
 }
 
@@ -288,6 +332,14 @@ func (w *world) streaming(t *rt.Tape, trace bool, res *core.Result) *core.Result
 	c := stream.Prepare(t, prog, probe)
 	if c.Discard != "" || small && (c.Circ.NumGates > 2000 || c.Circ.Inputs.Size() > 600) || c.Circ.NumGates > 50000 {
 		res.Discard = true
+		why := c.Discard
+		if why == "" {
+			why = "program too large for this transport configuration"
+		}
+		if len(why) > 60 {
+			why = why[:60]
+		}
+		res.Reach["discard: streaming: "+why]++
 		return res
 	}
 	kind := []int{twopc.OTCO, twopc.OTCOT}[t.Choose(rt.SGen, 2)]
@@ -304,11 +356,13 @@ func (w *world) streaming(t *rt.Tape, trace bool, res *core.Result) *core.Result
 	}
 	if !o.GDone || o.GErr != nil || len(o.RR.Crashed) > 0 {
 		res.Discard = true // C05's business
+		res.Reach["discard: streaming: clean session broken (C05's business)"]++
 		return res
 	}
 	r, ok, consistent := offsetFromWires(o.OTWires)
 	if !ok {
 		res.Discard = true
+		res.Reach["discard: streaming: no wire was handed to the OT layer"]++
 		return res
 	}
 	if !consistent {
@@ -406,6 +460,7 @@ func (w *world) sha2pc(t *rt.Tape, trace bool, res *core.Result) *core.Result {
 	res.Sample = sample{World: "sha2pc (round 1 + round 3 bytes)", Case: fmt.Sprintf("curve=%s a=%x b=%x", curve.Params().Name, a, b), Transcript: len(transcript)}
 	if failure != nil || len(rr.Crashed) > 0 {
 		res.Discard = true // C18's business
+		res.Reach["discard: sha2pc: clean run broken (C18's business)"]++
 		return res
 	}
 	if r == ([16]byte{}) {
